@@ -173,7 +173,9 @@ JudgeFrom(c, j, st, via, prev) ==
                          ELSE JudgeFrom(c, j + 1, AsState(P), P.via, s.files)
 
 \* a build file whose expressions the reference evaluator rejects is not a project (the generators emit a few)
-BadVal(v) == IsErr(v) /\ v.n # 3
+\* (reason 3 - the reference does not determine the value, e.g. 'x'.format(1) - included: such an argument cannot be
+\* compared before / after, and the real interpreters may go on with it into an operation that fails)
+BadVal(v) == IsErr(v)
 InvalidProject(P) == \/ \E t \in P.tg : (\E p \in t.kw : BadVal(p[2])) \/ Unknown \in t.src \cup t.extra
                      \/ \E p \in P.pk : BadVal(p[2])
                      \/ \E p \in P.vars : BadVal(p[2])
